@@ -15,7 +15,8 @@ import Polar.Stats
 
   Property theorems: `central_correct`, `central_order_one`, `central_counterexample`,
   `cumulant_correct`, `cumulant_recursion_correct`, `cumulant_is_log_mgf`, `cumulant_one/two/three/four`,
-  `markov`, `markov_min`, `second_moment_lower`, `probHermite_eq_heSpec`; finite tables: `hermite_table`,
+  `markov`, `markov_min`, `second_moment_lower`, `probHermite_eq_heSpec`, `gaussInt_heSpec_succ`,
+  `gc_integrates_to_one`; finite tables: `hermite_table`,
   `gauss_hermite_table`.
 -/
 
@@ -595,6 +596,239 @@ theorem probHermite_eq_heSpec (n : ℕ) : probHermite n = heSpec n := by
     field_simp
 
 example : probHermite 5 = [0, 15, 0, -10, 0, 1] := by decide +kernel
+
+/-! ### Gaussian orthogonality of He_n; the Gram–Charlier density integrates to one -/
+
+/-- coefficient j of He_n -/
+def he (n j : ℕ) : ℚ := (heSpec n).getD j 0
+
+lemma he_rec (n j : ℕ) :
+    he (n + 2) j = (if j = 0 then 0 else he (n + 1) (j - 1)) - ((n : ℚ) + 1) * he n j := by
+  unfold he
+  rw [heSpec, getD_add, getD_scale, getD_mulX]; ring
+
+lemma he_vanish (n j : ℕ) (h : n < j) : he n j = 0 := by
+  unfold he
+  rw [List.getD_eq_default]
+  rw [length_heSpec]; omega
+
+lemma he_zero (j : ℕ) : he 0 j = if j = 0 then 1 else 0 := by
+  cases j with
+  | zero => simp [he, heSpec]
+  | succ j => simp [he, heSpec]
+
+lemma he_one (j : ℕ) : he 1 j = if j = 1 then 1 else 0 := by
+  match j with
+  | 0 => simp [he, heSpec]
+  | 1 => simp [he, heSpec]
+  | j + 2 => simp [he, heSpec]
+
+/-- Appell property `He_{n+1}' = (n+1)·He_n`, coefficient-wise -/
+lemma he_appell (n j : ℕ) : ((j : ℚ) + 1) * he (n + 1) (j + 1) = ((n : ℚ) + 1) * he n j := by
+  induction n using Nat.strong_induction_on generalizing j with
+  | _ n ih =>
+    match n with
+    | 0 =>
+      rw [he_one, he_zero]
+      cases j with
+      | zero => simp
+      | succ j => simp
+    | 1 =>
+      rw [he_rec, he_one, he_zero, he_one]
+      match j with
+      | 0 => simp
+      | 1 => simp
+      | j + 2 => simp
+    | n + 2 =>
+      -- (j+1) e(n+3)(j+1) = (j+1) e(n+2) j − (n+2)(j+1) e(n+1)(j+1)
+      rw [he_rec (n + 1) (j + 1)]
+      simp only [Nat.succ_ne_zero, if_false, Nat.add_sub_cancel]
+      have a1 := ih (n + 1) (by omega) j      -- (j+1) e(n+2)(j+1) = (n+2) e(n+1) j
+      have hrec := he_rec n j                 -- e(n+2) j = [j≥1] e(n+1)(j-1) − (n+1) e n j
+      cases j with
+      | zero =>
+        simp only [if_true] at hrec
+        push_cast at a1 hrec ⊢
+        have a0 := ih n (by omega) 0
+        push_cast at a0
+        linear_combination (-(n:ℚ) - 2) * a0 + ((n:ℚ)+3) * 0 * hrec - ((n:ℚ) + 2) * hrec + (0:ℚ) * a1
+      | succ j =>
+        simp only [Nat.succ_ne_zero, if_false, Nat.add_sub_cancel] at hrec
+        have a2 := ih (n + 1) (by omega) j    -- (j+1) e(n+2)(j+1) = (n+2) e(n+1) j
+        have a3 := ih n (by omega) (j + 1)    -- (j+2) e(n+1)(j+2) = (n+1) e n (j+1)
+        push_cast at a1 a2 a3 hrec ⊢
+        linear_combination a2 - ((n:ℚ) + 2) * a3 - ((n:ℚ) + 2) * hrec + (0:ℚ) * a1
+
+/-- parity: He_n has only coefficients with j ≡ n (mod 2) -/
+lemma he_parity (n j : ℕ) (h : (n + j) % 2 = 1) : he n j = 0 := by
+  induction n using Nat.strong_induction_on generalizing j with
+  | _ n ih =>
+    match n with
+    | 0 => rw [he_zero]; have : j ≠ 0 := by omega
+           simp [this]
+    | 1 => rw [he_one]; have : j ≠ 1 := by omega
+           simp [this]
+    | n + 2 =>
+      rw [he_rec, ih n (by omega) j (by omega)]
+      cases j with
+      | zero => simp
+      | succ j =>
+        simp only [Nat.succ_ne_zero, if_false, Nat.add_sub_cancel]
+        rw [ih (n + 1) (by omega) j (by omega)]; ring
+
+/-! Gaussian moment functional -/
+
+lemma dfact_step (j : ℕ) : dfact (j + 1) = (j + 1) * dfact (j - 1) := by
+  cases j with
+  | zero => rfl
+  | succ j => rw [show j + 1 + 1 = j + 2 from rfl, dfact]; simp
+
+lemma gaussMoment_one_zero : gaussMoment 1 0 = 1 := by decide +kernel
+lemma gaussMoment_odd (s2 : ℚ) (j : ℕ) (h : j % 2 = 1) : gaussMoment s2 j = 0 := by
+  simp [gaussMoment, h]
+
+lemma gaussMoment_step (j : ℕ) : gaussMoment 1 (j + 2) = ((j : ℚ) + 1) * gaussMoment 1 j := by
+  unfold gaussMoment
+  by_cases h : j % 2 = 1
+  · have : (j + 2) % 2 = 1 := by omega
+    simp [h, this]
+  · have : ¬ (j + 2) % 2 = 1 := by omega
+    simp only [h, this, if_false, one_pow, one_mul]
+    rw [show j + 2 - 1 = j + 1 from rfl, dfact_step]; push_cast; ring
+
+/-- `Σ_{j<N} p_j · ∫ y^j φ_{0,s2}` -/
+def GI (s2 : ℚ) (p : UPoly) (N : ℕ) : ℚ := ∑ j ∈ range N, p.getD j 0 * gaussMoment s2 j
+
+lemma foldr_zipIdxFrom (f : ℚ × ℕ → ℚ) (l : List ℚ) (i : ℕ) :
+    ((zipIdxFrom i l).map f).foldr (· + ·) 0 = ∑ j ∈ range l.length, f (l.getD j 0, i + j) := by
+  induction l generalizing i with
+  | nil => simp [zipIdxFrom]
+  | cons a t ih =>
+    simp only [zipIdxFrom, List.map_cons, List.foldr_cons, List.length_cons]
+    rw [ih (i + 1), Finset.sum_range_succ']
+    simp only [List.getD_cons_succ, List.getD_cons_zero, Nat.add_zero]
+    rw [add_comm]
+    congr 1
+    refine Finset.sum_congr rfl fun j _ => ?_
+    congr 2; omega
+
+lemma GI_extend (s2 : ℚ) (p : UPoly) (N : ℕ) (h : p.length ≤ N) : GI s2 p N = GI s2 p p.length := by
+  unfold GI
+  symm
+  refine Finset.sum_subset (Finset.range_mono h) fun j _ hj => ?_
+  have : p.length ≤ j := by simpa using hj
+  rw [List.getD_eq_default _ _ this, zero_mul]
+
+lemma gaussInt_eq_GI (s2 : ℚ) (p : UPoly) (N : ℕ) (h : p.length ≤ N) : gaussInt s2 p = GI s2 p N := by
+  rw [GI_extend s2 p N h, gaussInt, foldr_zipIdxFrom]
+  unfold GI
+  refine Finset.sum_congr rfl fun j _ => ?_
+  simp
+
+lemma gaussInt_add (s2 : ℚ) (p q : UPoly) :
+    gaussInt s2 (UPoly.add p q) = gaussInt s2 p + gaussInt s2 q := by
+  rw [gaussInt_eq_GI s2 _ (max p.length q.length) (by rw [length_add]),
+    gaussInt_eq_GI s2 p (max p.length q.length) (le_max_left _ _),
+    gaussInt_eq_GI s2 q (max p.length q.length) (le_max_right _ _)]
+  unfold GI
+  rw [← Finset.sum_add_distrib]
+  refine Finset.sum_congr rfl fun j _ => ?_
+  rw [getD_add]; ring
+
+/-- **orthogonality to constants**: `∫ He_{n+1} φ = 0` for every n -/
+theorem gaussInt_heSpec_succ (n : ℕ) : gaussInt 1 (heSpec (n + 1)) = 0 := by
+  rw [gaussInt_eq_GI 1 _ (n + 2) (by rw [length_heSpec])]
+  unfold GI
+  change ∑ j ∈ range (n + 2), he (n + 1) j * gaussMoment 1 j = 0
+  match n with
+  | 0 =>
+    simp only [Nat.zero_add, Finset.sum_range_succ, Finset.sum_range_zero, he_one]
+    simp [gaussMoment_odd 1 1 rfl]
+  | m + 1 =>
+    -- K = m + 1
+    have hA : ∑ j ∈ range (m + 3), (if j = 0 then 0 else he (m + 1) (j - 1)) * gaussMoment 1 j
+        = ((m : ℚ) + 1) * ∑ i ∈ range (m + 1), he m i * gaussMoment 1 i := by
+      rw [Finset.sum_range_succ', Finset.sum_range_succ']
+      simp only [Nat.succ_ne_zero, if_false, if_true, Nat.add_sub_cancel, zero_mul, add_zero]
+      rw [gaussMoment_odd 1 (0 + 1) rfl, mul_zero, add_zero, Finset.mul_sum]
+      refine Finset.sum_congr rfl fun i _ => ?_
+      rw [gaussMoment_step]
+      have := he_appell m i
+      linear_combination (gaussMoment 1 i) * this
+    have hB : ∑ j ∈ range (m + 3), he m j * gaussMoment 1 j
+        = ∑ i ∈ range (m + 1), he m i * gaussMoment 1 i := by
+      rw [Finset.sum_range_succ, Finset.sum_range_succ, he_vanish m (m + 1) (by omega),
+        he_vanish m (m + 2) (by omega)]
+      ring
+    have : ∀ j, he (m + 1 + 1) j * gaussMoment 1 j
+        = (if j = 0 then 0 else he (m + 1) (j - 1)) * gaussMoment 1 j
+          - ((m : ℚ) + 1) * (he m j * gaussMoment 1 j) := by
+      intro j; rw [he_rec]; ring
+    simp only [this, Finset.sum_sub_distrib, ← Finset.mul_sum]
+    rw [hA, hB]; ring
+
+lemma length_gcSummand (ks : List ℚ) (i : ℕ) : (gcSummand ks i).length = i + 1 := by
+  unfold gcSummand
+  simp only
+  rw [length_map_zipIdxFrom, probHermite_eq_heSpec, length_heSpec]
+
+lemma getD_gcSummand (ks : List ℚ) (i j : ℕ) (h : j < i + 1) :
+    (gcSummand ks i).getD j 0
+      = ceBell (gcBellArg ks) i / (fact i : ℚ) * he i j / (gcSigma2 ks) ^ ((i + j) / 2) := by
+  unfold gcSummand
+  simp only
+  rw [getD_map_zipIdxFrom _ _ _ _ (by rw [probHermite_eq_heSpec, length_heSpec]; exact h),
+    probHermite_eq_heSpec]
+  simp only [zero_add]
+  rfl
+
+/-- each correction term of the Gram–Charlier polynomial integrates to 0 against the Gaussian -/
+lemma gaussInt_gcSummand (ks : List ℚ) (i : ℕ) (hi : 1 ≤ i) (hs : gcSigma2 ks ≠ 0) :
+    gaussInt (gcSigma2 ks) (gcSummand ks i) = 0 := by
+  obtain ⟨n, rfl⟩ : ∃ n, i = n + 1 := ⟨i - 1, by omega⟩
+  have h0 := gaussInt_heSpec_succ n
+  rw [gaussInt_eq_GI 1 _ (n + 2) (by rw [length_heSpec])] at h0
+  rw [gaussInt_eq_GI _ _ (n + 2) (by rw [length_gcSummand])]
+  unfold GI at h0 ⊢
+  set s2 := gcSigma2 ks with hs2
+  set b := ceBell (gcBellArg ks) (n + 1) / (fact (n + 1) : ℚ) with hb
+  have key : ∀ j ∈ range (n + 2), (gcSummand ks (n + 1)).getD j 0 * gaussMoment s2 j
+      = b / s2 ^ ((n + 1) / 2) * ((heSpec (n + 1)).getD j 0 * gaussMoment 1 j) := by
+    intro j hj
+    rw [getD_gcSummand ks (n + 1) j (Finset.mem_range.mp hj)]
+    change b * he (n + 1) j / s2 ^ ((n + 1 + j) / 2) * gaussMoment s2 j
+      = b / s2 ^ ((n + 1) / 2) * (he (n + 1) j * gaussMoment 1 j)
+    by_cases hjo : j % 2 = 1
+    · rw [gaussMoment_odd _ j hjo, gaussMoment_odd _ j hjo]; ring
+    · by_cases hio : (n + 1) % 2 = 1
+      · rw [he_parity (n + 1) j (by omega)]; ring
+      · have e : (n + 1 + j) / 2 = (n + 1) / 2 + j / 2 := by omega
+        have hp1 : s2 ^ ((n + 1) / 2) ≠ 0 := pow_ne_zero _ hs
+        have hp2 : s2 ^ (j / 2) ≠ 0 := pow_ne_zero _ hs
+        simp only [gaussMoment, hjo, if_false, one_pow, one_mul]
+        rw [e, pow_add]
+        field_simp
+  rw [Finset.sum_congr rfl key, ← Finset.mul_sum, h0, mul_zero]
+
+lemma gaussInt_gcPolyFrom (ks : List ℚ) (i fuel : ℕ) (hi : 1 ≤ i) (hs : gcSigma2 ks ≠ 0) :
+    gaussInt (gcSigma2 ks) (gcPolyFrom ks i fuel) = 1 := by
+  induction fuel with
+  | zero =>
+    simp only [gcPolyFrom]
+    rw [gaussInt_eq_GI _ _ 1 (by simp)]
+    simp [GI, gaussMoment, dfact]
+  | succ fuel ih =>
+    rw [gcPolyFrom, gaussInt_add, ih, gaussInt_gcSummand ks (i + fuel) (by omega) hs, add_zero]
+
+/-- **Gram–Charlier integrates to one, for every cumulant vector**: the polynomial factor of
+    `GramCharlierExpansion(cumulants)()` as coded (any number of cumulants, κ₂ ≠ 0) has Gaussian
+    integral 1 — `∫ poly_term(x) φ_{μ,σ}(x) dx = 1` with `∫ y^j φ_{0,σ²} = σ^j (j−1)!!`. -/
+theorem gc_integrates_to_one (ks : List ℚ) (hs : gcSigma2 ks ≠ 0) :
+    gaussInt (gcSigma2 ks) (gcPoly ks) = 1 :=
+  gaussInt_gcPolyFrom ks 3 _ (by omega) hs
+
+example : gcSigma2 [1/2, 3, 1/3, 2] ≠ 0 ∧ gcPoly [1/2, 3, 1/3, 2] = [37/36, -1/54, -1/54, 1/486, 1/972] := by
+  decide +kernel
 
 /-! ### finite tables (tests, not unbounded claims) -/
 
